@@ -622,7 +622,7 @@ Theorem typing_equivariant_types_inj teq rt rl p :
   (forall a b, rt a = rt b -> a = b) -> (forall a b, rl a = rl b -> a = b) -> teq_equivariant teq rt rl ->
   ProgOK teq p -> ProgOK teq (rent_program rt rl p).
 Proof.
-  intros Ht Hl Heq [pe [[ET [EF [EP EA]]] [SD NF [Sg [SO [FO PO]]] NA TA NP DJ U1 U2 U3 AC]]].
+  intros Ht Hl Heq [pe [[ET [EF [EP EA]]] [SD NF [Sg [SO [FO PO]]] NA TA NP DJ U1 U2 U3 AC PN]]].
   exists (rent_program rt rl pe). split.
   - rewrite !rent_program_eq. repeat split; cbn [p_types p_funs p_procs p_assumed].
     + now rewrite ET.
@@ -644,6 +644,9 @@ Proof.
     + rewrite uses_rent, all_providers_rent, idents_rent. exact U2.
     + rewrite uses_rent, idents_rent. exact U3.
     + now rewrite deps_acyclic_rent.
+    + intros q n Hq Hn [S E]. apply in_map_iff in Hq. destruct Hq as [q0 [<- Hq0]].
+      cbn [pr_providers rent_proc] in Hn. apply in_map_iff in Hn. destruct Hn as [n0 [<- Hn0]].
+      cbn in S, E. exact (PN q0 n0 Hq0 Hn0 (conj S E)).
 Qed.
 
 (* ---------------------------------------------------------------- the converse, for bijections *)
